@@ -2079,3 +2079,23 @@ def expr_local_ids(e, out=None):
 		for a in e[3]:
 			expr_local_ids(a, out)
 	return out
+
+_SHORT_CIRCUIT = ('find_map', 'find', 'next', 'nth', 'last', 'take', 'take_while', 'skip', 'skip_while', 'step_by', 'position', 'rposition',
+	'any', 'all', 'min', 'max', 'min_by_key', 'max_by_key', 'first', 'peekable', 'map_while', 'try_fold', 'try_for_each', 'next_back', 'reduce')
+
+def iterator_chain(e):
+	"""adaptor names (outermost first) of an iterator expression `collect(filter_map(iter(x), ..))`"""
+	names = []
+	while e[0] in ('ref', 'deref'):
+		e = e[1]
+	while e[0] == 'call' and e[2]:
+		names.append((e[1] or '').rsplit('::', 1)[-1])
+		e = e[2][0]
+		while e[0] in ('ref', 'deref'):
+			e = e[1]
+	return names, e
+
+def chain_is_exhaustive(e):
+	"""True when no adaptor of the chain can stop before the end of the underlying collection"""
+	names, base = iterator_chain(e)
+	return not any(n in _SHORT_CIRCUIT for n in names), names
